@@ -461,6 +461,132 @@ theorem build_setOutputsDfg_handle (st st' : BuildState) (bi : Nat) (ws : List W
     obtain ⟨r, r', _, h2, h3⟩ := build_setParentOutputCount st1 st' bi ws.length hok
     exact ⟨r', h2, by rw [h3]⟩
 
+/-- a tail-loop builder once its outputs are set (`TailLoop.set_outputs(sum_wire, *rest)`): the builder's parent handle
+    knows `len(just_outputs) + len(rest)` — the BREAK row (the second variant) of the control sum plus the wires that
+    follow it — whatever the length of the continue row. -/
+theorem build_setOutputsTailLoop_handle (st st' : BuildState) (bi : Nat) (w : Wire) (rest : List Wire)
+    (hok : setOutputsTailLoop st bi (w :: rest) = .ok st') :
+    ∃ (st1 : BuildState) (r : BRec) (s : St) (sm : SumTy) (r0 r1 : List Ty) (r' : BRec), st1.getB bi = .ok r ∧ st1.getHugr r.hid = .ok s ∧ sumOfWire s w = .ok sm ∧
+      sm.rows = [r0, r1] ∧ st'.getB bi = .ok r' ∧ r'.parent.2 = some (r1.length + rest.length) := by
+  unfold setOutputsTailLoop at hok
+  split at hok
+  · cases hok
+  · rename_i st1 h1
+    simp only [] at hok
+    split at hok
+    · cases hok
+    · rename_i r hr
+      split at hok
+      · cases hok
+      · rename_i s hs
+        split at hok
+        · cases hok
+        · rename_i sm hsm
+          split at hok
+          · rename_i r0 r1 hrows
+            obtain ⟨ra, r', h2, h3, h4⟩ := build_setParentOutputCount st1 st' bi _ hok
+            refine ⟨st1, r, s, sm, r0, r1, r', hr, hs, hsm, hrows, h3, ?_⟩
+            rw [h4]
+            simp only [List.length_cons]
+            congr 1
+          · cases hok
+
+/-- a basic-block builder once its outputs are set (`Block.set_outputs(branch_wire, *other)`): the block's handle knows
+    one output (control-flow port) per variant of the branching sum — the number of successors. -/
+theorem build_setOutputsBlock_handle (st st' : BuildState) (bi : Nat) (w : Wire) (rest : List Wire)
+    (hok : setOutputsBlock st bi (w :: rest) = .ok st') :
+    ∃ (st1 : BuildState) (r : BRec) (s : St) (sm : SumTy) (r' : BRec), st1.getB bi = .ok r ∧ st1.getHugr r.hid = .ok s ∧ sumOfWire s w = .ok sm ∧
+      st'.getB bi = .ok r' ∧ r'.parent.2 = some sm.rows.length := by
+  unfold setOutputsBlock at hok
+  split at hok
+  · cases hok
+  · rename_i st1 h1
+    simp only [] at hok
+    split at hok
+    · cases hok
+    · rename_i r hr
+      split at hok
+      · cases hok
+      · rename_i s hs
+        split at hok
+        · cases hok
+        · rename_i sm hsm
+          obtain ⟨ra, r', h2, h3, h4⟩ := build_setParentOutputCount st1 st' bi _ hok
+          exact ⟨st1, r, s, sm, r', hr, hs, hsm, h3, by rw [h4]⟩
+
+/-- a conditional builder when the first case sets its outputs (`Conditional._update_outputs`): the conditional's
+    handle knows the number of outputs of that case; later cases leave the count alone (they are compared). -/
+theorem build_condUpdateOutputs_handle (st st' : BuildState) (ci : Nat) (outs : List Ty)
+    (hok : condUpdateOutputs st ci outs = .ok st') :
+    ∃ c s op, st.getB ci = .ok c ∧ st.getHugr c.hid = .ok s ∧ nodeOp s c.parent.1 = .ok op ∧
+      ((∃ sm oi, op = .conditional sm oi none ∧ ∃ c', st'.getB ci = .ok c' ∧ c'.parent.2 = some outs.length) ∨
+       (∃ sm oi prev, op = .conditional sm oi (some prev) ∧ st' = st)) := by
+  unfold condUpdateOutputs at hok
+  split at hok
+  · cases hok
+  · rename_i c hc
+    split at hok
+    · cases hok
+    · rename_i s hs
+      split at hok
+      · cases hok
+      · rename_i sm oi hop
+        split at hok
+        · cases hok
+        · split at hok
+          · cases hok
+          · cases hok
+            exact ⟨c, s, _, hc, hs, hop, .inl ⟨sm, oi, rfl, _, getB_setB (st.setHugr c.hid _) ci c _ (by rw [getB_setHugr]; exact hc), rfl⟩⟩
+      · rename_i sm oi prev hop
+        split at hok
+        · cases hok
+          exact ⟨c, s, _, hc, hs, hop, .inr ⟨sm, oi, prev, rfl, rfl⟩⟩
+        · cases hok
+      · cases hok
+
+/-- a CFG builder when the first branch to the exit block is made (`Cfg.branch_exit`): the CFG's handle knows the length
+    of the row that successor carries (`_nth_outputs`); later exit branches leave the builder record alone. -/
+theorem build_branchExit_handle (st st' : BuildState) (ci : Nat) (w : Wire) (hok : branchExit st ci w = .ok st') :
+    ∃ (c : BRec) (s s1 : St) (outTypes : List Ty), st.getB ci = .ok c ∧ st.getHugr c.hid = .ok s ∧
+      nthOutputsOf s1 w = .ok outTypes ∧
+      ((typedOp s1 c.exit.1 isExitOp = .ok (.exitBlock none) ∧
+          ∃ c', st'.getB ci = .ok c' ∧ c'.parent.2 = some outTypes.length) ∨
+       (∃ prev, typedOp s1 c.exit.1 isExitOp = .ok (.exitBlock (some prev)) ∧ st'.getB ci = .ok c)) := by
+  unfold branchExit at hok
+  split at hok
+  · cases hok
+  · rename_i c hc
+    split at hok
+    · cases hok
+    · rename_i s hs
+      split at hok
+      · cases hok
+      · rename_i s1 h1
+        split at hok
+        · cases hok
+        · rename_i outTypes hot
+          split at hok
+          · cases hok
+          · rename_i prev hex
+            split at hok
+            · cases hok
+              exact ⟨c, s, s1, outTypes, hc, hs, hot, .inr ⟨prev, hex, by rw [getB_setHugr]; exact hc⟩⟩
+            · cases hok
+          · rename_i hex
+            split at hok
+            · cases hok
+            · split at hok
+              · cases hok
+              · split at hok
+                · cases hok
+                · split at hok
+                  · cases hok
+                  · cases hok
+                    exact ⟨c, s, s1, outTypes, hc, hs, hot, .inl ⟨hex, _,
+                      getB_setB (st.setHugr c.hid _) ci c _ (by rw [getB_setHugr]; exact hc), rfl⟩⟩
+              · cases hok
+          · cases hok
+
 /-- `insert_nested` (and `insert_cfg / insert_conditional / insert_tail_loop`, which share `_insert_nested_impl`):
     the handle knows the output-port count recorded for the inserted HUGR's root. -/
 theorem build_insertNested_handle (st st' : BuildState) (bi oi : Nat) (ws : List Wire) (h : Build.Handle)
@@ -508,5 +634,17 @@ example : (match newStandaloneDf {} .dfg (.dfg [.unitSum 2] none []) with
       | .ok (_, h) => some h
       | .error _ => none)
     | .error _ => none) = some (3, some 1) := by decide +kernel
+
+/-- non-vacuity: `t = TailLoop([Bool], [Bool]); brk = t.add_op(Tag(1, Sum([[Bool], []]))); t.set_loop_outputs(brk[0],
+    t.inputs()[1])` — the continue row has one element, the break row none: the loop's handle knows ONE output (the break
+    row plus the one rest wire), not two. -/
+example : (match Build.run "" {} [
+      .newTailLoop "t" [.unitSum 2] [.unitSum 2],
+      .addOp "t" "tag" (.tag 1 (.general [[.unitSum 2], []])) [] [],
+      .setLoopOutputs "t" (.idx (.var "tag") 0) [.inp "t" 1]] with
+    | .ok st => (match st.bvar "t" with
+      | .ok bi => (match st.getB bi with | .ok r => some r.parent | .error _ => none)
+      | .error _ => none)
+    | .error _ => none) = some (0, some 1) := by decide +kernel
 
 end HugrVerif.Props.C16.BuilderModel
